@@ -355,6 +355,7 @@ func (s *session) keepOracle(cases int) {
 			f    func([]byte) bool
 		}{{"semantic", semantic}, {"raw", func(b []byte) bool { return bytes.Equal(b, rawOurs) }}}
 		op := []string{fmt.Sprintf("keepbytes ours=%x data=%x (%s)", rawOurs, data, label)}
+		crashed := false
 		for _, p := range preds {
 			out, hung := runKeep(data, p.f)
 			switch {
@@ -364,6 +365,7 @@ func (s *session) keepOracle(cases int) {
 			case out.panicked != "":
 				r.Count("keep.violation.panic")
 				r.Violate("C03", "", "acl.keep-panic", "the partial decode panicked: "+out.panicked, op)
+				crashed = true
 				continue
 			}
 			fastOK := strings.HasPrefix(out.fast, "ok")
@@ -380,7 +382,7 @@ func (s *session) keepOracle(cases int) {
 		}
 		r.Count("keep.mut." + strings.SplitN(label, "+", 2)[0])
 		// model: fast path on raw-equality isOurs
-		if s.useModel && len(data) < 1500 {
+		if s.useModel && len(data) < 1500 && !crashed {
 			d, err := list.VerifKeepIdentityFast(append([]byte{}, data...), preds[1].f)
 			impl := "bail"
 			if err == nil {
